@@ -5,7 +5,7 @@ import signal
 import sys
 import time
 
-from vlib import core, engine_b, wf, fdesigns, edif_writer, verilog_writer as vw, eblif_writer as ew
+from vlib import canon, core, engine_b, wf, fdesigns, edif_writer, verilog_writer as vw, eblif_writer as ew
 from checks import c06, c18
 
 ID = "C15"
@@ -89,11 +89,15 @@ def _alarm(signum, frame):
 def guarded_parse(path):
     """(outcome, netlist): outcome in ok / raised:<Type> / hang."""
     s = core.sdn()
+    return guarded_call(lambda: s.parse(path))
+
+
+def guarded_call(fn):
     old = signal.signal(signal.SIGALRM, _alarm)
     signal.setitimer(signal.ITIMER_REAL, TIMEOUT_S)
     try:
         with core.quiet():
-            n = s.parse(path)
+            n = fn()
         return "ok", n
     except Timeout:
         pass
@@ -115,7 +119,7 @@ def guarded_parse(path):
     sys.settrace(tracer)
     try:
         with core.quiet():
-            n = s.parse(path)
+            n = fn()
         return "ok", n
     except Timeout:
         return "hang", None
@@ -279,7 +283,62 @@ def file_fault_worker(case):
     return {"key": core.digest(case), "nontrivial": outcome.startswith("raised"), "outcome": outcome.split(":")[0], "problems": probs, "transitions": 1}
 
 
+def handle_worker(case):
+    """the same text handed to a reader as an open handle (text / binary file, in-memory text / bytes), intact and cut
+    in the middle: the reader terminates; when it returns a netlist that netlist is the one the file name gives."""
+    _, which, hkind, cut = case
+    import io
+    core.reset_world()
+    s = core.sdn()
+    ext, text = bases()[which]
+    if cut:
+        text = text[: len(text) // 2]
+    path = os.path.join(core.scratch_dir(), "c15h_%d%s" % (os.getpid(), ext))
+    with open(path, "w") as f:
+        f.write(text)
+    from spydrnet.parsers.edif.parser import EdifParser
+    from spydrnet.parsers.verilog.parser import VerilogParser
+    from spydrnet.parsers.eblif.eblif_parser import EBLIFParser
+    cls = {".edf": EdifParser, ".v": VerilogParser, ".eblif": EBLIFParser}[ext]
+    probs = []
+    tag = "handle:%s:%s%s" % (which.split(":")[0], hkind, ":cut" if cut else "")
+    def shape(nl):
+        c = canon.canon_netlist(nl)
+        c.pop("lib_order", None)
+        for L in c["libs"].values():
+            L.pop("order", None)    # the order of inferred black boxes inside their library is not specified
+        return c
+    ref_outcome, ref = guarded_parse(path)
+    ref_c = shape(ref) if ref is not None else None
+
+    def go():
+        h = {"text-file": lambda: open(path, "r"), "binary-file": lambda: open(path, "rb"),
+             "StringIO": lambda: io.StringIO(text), "BytesIO": lambda: io.BytesIO(text.encode())}[hkind]()
+        try:
+            p = cls.from_file_handle(h)
+            p.parse()
+            return p.netlist
+        finally:
+            try:
+                h.close()
+            except Exception:
+                pass
+    outcome, n = guarded_call(go)
+    if outcome == "hang":
+        probs.append(("reader-hangs:" + tag, which))
+    elif outcome == "ok" and n is not None:
+        if ref_c is None:
+            probs.append(("handle-accepted-what-the-file-name-rejects:" + tag, ref_outcome))
+        elif canon.diff(ref_c, shape(n)):
+            probs.append(("handle-parse-differs:" + tag, str(canon.diff(ref_c, shape(n)))[:300]))
+        for c, d in wf.wf_netlist(n):
+            probs.append(("malformed-netlist-returned:%s:%s" % (c, tag), d))
+    return {"key": core.digest(case), "nontrivial": True, "outcome": outcome.split(":")[0], "problems": probs, "transitions": 2}
+
+
 def worker(case):
+    if case[0] == "handle":
+        return handle_worker(case)
     if case[0] == "graph":
         return graph_worker(case)
     if case[0] == "file-fault":
@@ -397,6 +456,10 @@ def cases(tier):
                  "empty.eblif", "zip-without-member.edf", "zip-without-member.v", "unknown-extension"):
         for policy in ("DEFAULT", "EDIF"):
             out.append(("file-fault", what, policy))
+    for which in bases():
+        for hkind in ("text-file", "binary-file", "StringIO", "BytesIO"):
+            for cut in (False, True):
+                out.append(("handle", which, hkind, cut))
     # the same faults with the EDIF policy in force before the call (the Verilog reader switches to DEFAULT)
     for c in list(out):
         if c[0] in ("verilog", "eblif") and len(c) == 6 and (tier == "thorough" or c[2] in ("truncate", "delete")):
